@@ -9,6 +9,7 @@ import (
 	"crypto/ecdsa"
 	"crypto/elliptic"
 	crand "crypto/rand"
+	"crypto/sha1"
 	"crypto/tls"
 	"crypto/x509"
 	"crypto/x509/pkix"
@@ -28,6 +29,7 @@ import (
 
 	"google.golang.org/grpc"
 	"google.golang.org/grpc/codes"
+	"google.golang.org/grpc/metadata"
 	"google.golang.org/grpc/status"
 	"google.golang.org/protobuf/encoding/protojson"
 	"google.golang.org/protobuf/proto"
@@ -42,8 +44,26 @@ import (
 
 type impl struct{ calls *int64 }
 
+// seenMD renders the incoming metadata of a call (keys, and a digest of each
+// key's values) so that the response shows what the handler was given.
+func seenMD(ctx context.Context) metadata.MD {
+	in, _ := metadata.FromIncomingContext(ctx)
+	var ks []string
+	for k := range in {
+		ks = append(ks, k)
+	}
+	sort.Strings(ks)
+	var sb strings.Builder
+	for _, k := range ks {
+		sum := sha1.Sum([]byte(strings.Join(in[k], "\x00")))
+		fmt.Fprintf(&sb, "%s=%x;", k, sum[:4])
+	}
+	return metadata.Pairs("x-vf-seen-metadata", sb.String())
+}
+
 func (h impl) Unary(ctx context.Context, md protoreflect.MethodDescriptor, in proto.Message) (proto.Message, error) {
 	atomic.AddInt64(h.calls, 1)
+	grpc.SetHeader(ctx, seenMD(ctx))
 	switch md.Name() {
 	case "Echo":
 		r := in.ProtoReflect()
@@ -63,6 +83,7 @@ func (h impl) Unary(ctx context.Context, md protoreflect.MethodDescriptor, in pr
 
 func (h impl) Stream(md protoreflect.MethodDescriptor, ss grpc.ServerStream) error {
 	atomic.AddInt64(h.calls, 1)
+	ss.SetHeader(seenMD(ss.Context()))
 	for {
 		in := vschema.NewMsg(md.Input())
 		if err := ss.RecvMsg(in); err != nil {
@@ -136,6 +157,8 @@ func requests(std *svc.Std) []ReqSpec {
 	add(ReqSpec{Kind: "http", Verb: "GET", Path: "/v1/unary/hello", Query: "n=5&sub.a=%zz"})
 	add(ReqSpec{Kind: "http", Verb: "GET", Path: "/v1/unary/hello", Query: "n=5&sub.a=a+b%20c"})
 	add(ReqSpec{Kind: "http", Verb: "GET", Path: "/v1/items/it/42"})
+	// headers a fronting gateway sets: they reach the handler as they came
+	add(ReqSpec{Kind: "http", Verb: "GET", Path: "/v1/echo/fwd", Header: map[string][]string{"X-Forwarded-Prefix": {"/gateway"}, "X-Forwarded-For": {"198.51.100.7"}, "X-Forwarded-Host": {"edge.example"}, "X-Original-Uri": {"/gateway/v1/echo/fwd"}, "Forwarded": {"for=198.51.100.7;proto=https"}, "X-Request-Id": {"42"}}})
 	add(ReqSpec{Kind: "http", Verb: "GET", Path: "/v1/items/it/notanumber"})
 	add(ReqSpec{Kind: "http", Verb: "PATCH", Path: "/v1/sub/k", Header: jh, Body: []byte(`{"a":"x","l":"7"}`)})
 	add(ReqSpec{Kind: "http", Verb: "GET", Path: "/v1/unary/a%40b", Query: "n=5&sub.a=q", Escaped: true})
@@ -309,7 +332,15 @@ func newEnv() (*env, error) {
 func exec(r *mon.Run, e *env, c *Case) {
 	var extraSeen []string
 	var opts []larking.ServerOption
-	opts = append(opts, larking.MuxHandleOption(c.Patterns...))
+	if c.Patterns != nil {
+		opts = append(opts, larking.MuxHandleOption(c.Patterns...))
+	}
+	eff := c.Patterns
+	if len(eff) == 0 {
+		// no patterns (option absent, or given an empty list): the default
+		// mount is the root
+		eff = []string{"/"}
+	}
 	for _, p := range c.Extra {
 		p := p
 		opts = append(opts, larking.HTTPHandlerOption(p, http.HandlerFunc(func(w http.ResponseWriter, rq *http.Request) {
@@ -350,7 +381,7 @@ func exec(r *mon.Run, e *env, c *Case) {
 	}
 	// the most specific (= longest) matching pattern owns the path, whether
 	// it is a mount's subtree or an extra handler's pattern
-	mpre, mok := mountFor(c.Patterns, c.URLPath)
+	mpre, mok := mountFor(eff, c.URLPath)
 	for _, pat := range c.Extra {
 		// ServeMux pattern grammar: [METHOD ][HOST]/[PATH]
 		pm, ph, p := splitPattern(pat)
@@ -404,7 +435,7 @@ func exec(r *mon.Run, e *env, c *Case) {
 		r.Violate("extra-handler-got-foreign-path", fmt.Sprintf("%v (mount patterns %v)", extraSeen, c.Patterns), c)
 		return
 	}
-	pre, ok := mountFor(c.Patterns, c.URLPath)
+	pre, ok := mountFor(eff, c.URLPath)
 	if !ok {
 		if mid != before {
 			r.Violate("served-outside-every-prefix:"+c.Req.Kind, fmt.Sprintf("%s is under no mount prefix of %v but a larking handler ran", c.URLPath, c.Patterns), c)
@@ -679,6 +710,17 @@ func Run(r *mon.Run) {
 			exec(r, e, &Case{Patterns: set, Extra: extra, URLPath: u, Req: ReqSpec{Kind: "http", Verb: verb, Path: u}})
 		}
 	}
+	// the default mount: no MuxHandleOption at all (nil), the option without
+	// patterns, the option with an empty list (a filtered configuration)
+	for _, pats := range [][]string{nil, {}, strings.Fields("")} {
+		for _, q := range reqs {
+			if !r.Thorough() && rng.Intn(2) != 0 {
+				continue
+			}
+			exec(r, e, &Case{Patterns: pats, URLPath: q.Path, Req: q})
+		}
+		exec(r, e, &Case{Patterns: pats, Extra: []string{"/extra/"}, URLPath: "/v1/echo/xyz", Req: ReqSpec{Kind: "http", Verb: "GET", Path: "/v1/echo/xyz"}})
+	}
 	// requests whose body as a whole exceeds the mux's receive limit while
 	// every message in it fits: the limit is per message, mounted or not
 	{
@@ -710,7 +752,7 @@ func Run(r *mon.Run) {
 	pacedLane(r, e)
 	r.Sample(Case{Patterns: []string{"/api", "/a/b"}, URLPath: "/api/v1/echo/xyz", Req: ReqSpec{Kind: "http", Verb: "GET", Path: "/v1/echo/xyz"}})
 	r.Sample(Case{Patterns: []string{"/", "/twirp"}, URLPath: "/twirp/vf.std.Std/Echo", Req: ReqSpec{Kind: "twirp", Verb: "POST", Path: "/vf.std.Std/Echo"}})
-	r.Assume("request paths are clean (net/http's ServeMux redirects unclean ones); the longest configured prefix wins, as in net/http; pattern sets that net/http itself refuses (duplicates) are not generated")
+	r.Assume("with no mount pattern configured (no MuxHandleOption, or one with an empty list) the mux is mounted at the root; request paths are clean (net/http's ServeMux redirects unclean ones); the longest configured prefix wins, as in net/http; pattern sets that net/http itself refuses (duplicates) are not generated")
 }
 
 // socketLane: gRPC and gRPC-web over real h2c listeners, mounted vs bare.
